@@ -170,6 +170,26 @@ def _vanishes_without_setext_bypass(md, doc):
         block._methods["setex_heading"] = orig
 
 
+class _Seen:
+    """converts with the HTML renderer and returns state.tokens: what Markdown._iter_render handed to the renderer"""
+
+    def __init__(self, m, kind):
+        from mistune.directives import FencedDirective, RSTDirective, TableOfContents
+        from mistune.toc import add_toc_hook
+        if kind == "hook":
+            self.md = m.create_markdown(plugins=["table", "footnotes", "abbr"])
+            add_toc_hook(self.md, 1, 6)
+        else:
+            self.md = m.create_markdown(plugins=["table", "footnotes", FencedDirective([TableOfContents(1, 6)]), RSTDirective([TableOfContents(1, 6)])])
+        self.kind = kind
+
+    def __call__(self, doc):
+        if self.kind == "directive" and "{toc}" not in doc and ".. toc::" not in doc:
+            doc = doc + "\n\n```{toc}\n```\n"
+        _out, state = self.md.parse(doc)
+        return state.tokens
+
+
 def configs(m):
     from mistune.directives import Admonition, Figure, FencedDirective, Image, Include, RSTDirective, TableOfContents
     P = gen_docs.ALL_PLUGINS
@@ -184,6 +204,10 @@ def configs(m):
         # every container-making plugin together with every directive style: containers inside directive bodies inside containers
         ("ast-containers", m.create_markdown(renderer=None, plugins=["def_list", "footnotes", "spoiler", "task_lists", "table", FencedDirective([Admonition(), Figure()]),
                                                                      RSTDirective([Admonition(), Figure()])]), ("def_list", "footnotes", "spoiler"), True),
+        # the token list as a renderer sees it: the tokens of the state after a rendering conversion, with the TOC hook or the TOC
+        # directive at work (both look at the headings before the inline pass)
+        ("tokens-seen-by-html-renderer+toc-hook", _Seen(m, "hook"), ("table", "footnotes"), False),
+        ("tokens-seen-by-html-renderer+toc-directive", _Seen(m, "directive"), ("table", "footnotes"), True),
         # custom fence characters are a separate entry point of the directive parser
         ("ast-colon", m.create_markdown(renderer=None, plugins=["table", "spoiler", FencedDirective([Admonition(), Image(), Figure()], ":")]),
          ("table", "spoiler"), True),
@@ -251,7 +275,7 @@ def oracle(ctx, extra):
                 pre = "> " * r.choice([5, 6, 6, 7])
                 fence = r.choice([":::", "::::", "```", "~~~~"])
                 # under the configuration that knows this fence style
-                name, md, plugins, directives = cfgs[6] if fence[0] == ":" else cfgs[3]
+                name, md, plugins, directives = cfgs[8] if fence[0] == ":" else cfgs[3]
                 body = [r.choice(["> inner", "- inner", "1. inner", "> - inner"]), r.choice(["text", "> more", fence[0] * (len(fence) - 1) + "x"])]
                 doc = "".join(pre + l + "\n" for l in [fence + "{note} T"] + body + [fence])
             elif r.random() < 0.35:
